@@ -210,11 +210,13 @@ static void dns_read_back(uint8_t *m, size_t size, char **shapes, int nshapes) {
 	const char *secn[3] = { "an", "ns", "ar" };
 	size_t secoff[3] = { an, ns, ar }, seccnt[3] = { dns_hdr_an_get(mh), dns_hdr_ns_get(mh), dns_hdr_ar_get(mh) };
 	int k = 0, stop = 0;
+	static size_t rroffs[256];
 	for (int s = 0; s < 3 && !stop; s++) {
 		off = secoff[s];
 		for (size_t i = 0; i < seccnt[s] && !stop; i++, k++) {
 			size_t nl = sizeof(name), isz = 0; uint16_t t = 0, c = 0, dsz = 0; uint32_t ttl = 0; void *data = NULL;
 			memset(name, 0xEE, sizeof(name));
+			if (k < 256) rroffs[k] = off;
 			int e = dns_msg_rr_get_data(mh, size, off, name, &nl, &t, &c, &ttl, &dsz, &data, &isz);
 			if (k) putchar('|');
 			printf("%s/", secn[s]);
@@ -250,6 +252,20 @@ static void dns_read_back(uint8_t *m, size_t size, char **shapes, int nshapes) {
 		}
 	}
 	if (k == 0) putchar('-');
+	/* dns_msg_rr_find: every record is looked up by its own owner name from the start of the answer section over all
+	 * records; printed per record: error ':' index of the record found (by offset) ':' remaining count */
+	if (!stop && k > 0 && k <= 256) {
+		printf(" find=");
+		for (int q = 0; q < k; q++) {
+			size_t nl = sizeof(name), isz = 0, o = an, cnt = (size_t)k, fsz = 0; uint16_t t = 0, c = 0, dsz = 0; uint32_t ttl = 0; void *data = NULL;
+			memset(name, 0xEE, sizeof(name));
+			if (0 != dns_msg_rr_get_data(mh, size, rroffs[q], name, &nl, &t, &c, &ttl, &dsz, &data, &isz)) { printf("%s!", q ? "," : ""); continue; }
+			int e = dns_msg_rr_find(mh, size, &o, &cnt, name, nl, &t, &c, &ttl, &dsz, &data, &fsz);
+			int jf = -1;
+			for (int j = 0; j < k; j++) if (rroffs[j] == o) { jf = j; break; }
+			printf("%s%d:%d:%zu", q ? "," : "", e, jf, cnt);
+		}
+	}
 }
 
 static void do_dnsp(char *args) {
